@@ -1122,6 +1122,18 @@ fn c10(rng: &mut Rng, idx: usize) -> Case {
     let max_terms = *rng.pick(&[3usize, 10, 40]);
     let wr = rng.chance(1, 2);
     let (mut f, _) = gen_facts(rng, &DagOpts { max_terms, with_roots: wr, max_recs: 8 });
+    if idx % 2 == 1 {
+        // the smallest and the largest id of the id space as terms (with a link between them)
+        for id in [0u32, 9_999_999] {
+            if !f.terms.iter().any(|t| t.0 == id) {
+                f.terms.push((id, gen_name(rng)));
+            }
+        }
+        if !f.edges.contains(&(9_999_999, 0)) && !f.edges.contains(&(0, 9_999_999)) {
+            f.edges.push((9_999_999, 0));
+        }
+        c.stat("extreme_ids_as_terms", 1);
+    }
     // dense block of ids
     if rng.chance(1, 2) {
         let base = rng.range(2, 9_999_000) as u32;
